@@ -463,3 +463,66 @@ _run_c04c = run
 def run(ctx):  # noqa: F811
     _run_c04c(ctx)
     r04_5(ctx, ctx.model)
+
+
+_run_c04z = run
+
+
+def run(ctx):  # noqa: F811
+    _run_c04z(ctx)
+    # a specialised Hamiltonian carries an offset: value with and without the metric must agree (shared with C03)
+    from .c03 import r03_9
+    r03_9(ctx, rid="R04.7")
+
+
+# ---------------------------------------------------------------------------------------------------------------- R04.8
+def r04_8(ctx, m, rid="R04.8"):
+    """constants produced by specialisation have the zero metric, not 'no metric'"""
+    from ..util import cfg_of, find_nodes
+    mod = m.module("nifty.cl.operators.simplify_for_const")
+    ctx.rule(rid, "simplify_for_const: every operator that stands for a fully constant sub-expression (apply returns its stored output "
+                  "with a NullOperator Jacobian) also returns a metric when the linearization wants one - the zero operator "
+                  "NullOperator(domain, domain) - because _OpSum keeps the metric of a sum only if every summand has one; a constant "
+                  "summand without it discards the metric of the whole expression", floor=2)
+    n = 0
+    for c in mod.classes.values():
+        ap = c.methods.get("apply")
+        if ap is None:
+            continue
+        cfg = cfg_of(ap)
+        rd = cfg.reaching_defs(params=ap.params())
+        xn = ap.params()[1]
+        for node, call in find_nodes(cfg, lambda q: isinstance(q, ast.Call) and src(q.func) == f"{xn}.new" and len(q.args) >= 2):
+            def defs_of(e):
+                if isinstance(e, ast.Name):
+                    out = []
+                    for d in (rd.get(node.id) or {}).get(e.id, ()):
+                        dn = cfg.nodes[d]
+                        if dn.ast is not None and isinstance(dn.ast, ast.Assign):
+                            out.append(dn.ast.value)
+                    return out
+                return [e]
+            jd = defs_of(call.args[1])
+            if not jd or not all(isinstance(j, ast.Call) and call_name(j) == "NullOperator" for j in jd):
+                continue
+            n += 1
+            ctx.saw_func(ap)
+            key = f"{ap.key}::constant value is returned with the zero metric when a metric is wanted"
+            met = call.args[2] if len(call.args) > 2 else next((k.value for k in call.keywords if k.arg == "metric"), None)
+            if met is None:
+                ctx.bad(rid, key, f"`{src(call)}`: no metric although {xn}.want_metric may be set", ap, call)
+                continue
+            md = defs_of(met)
+            has_null = any(isinstance(j, ast.Call) and call_name(j) == "NullOperator" and len(j.args) >= 2 and src(j.args[0]) == src(j.args[1]) for j in md)
+            wm = any(isinstance(z, ast.Attribute) and z.attr == "want_metric" for z in ast.walk(ap.node))
+            ctx.check(rid, key, True if (has_null and wm) else None, f"metric argument `{src(met)}` <- {[src(j)[:50] for j in md]}", ap, call)
+    if not n:
+        ctx.und(rid, f"{mod.name}::constant operators", "none found", mod)
+
+
+_run_c04y = run
+
+
+def run(ctx):  # noqa: F811
+    _run_c04y(ctx)
+    r04_8(ctx, ctx.model)
